@@ -162,6 +162,62 @@ func (p *c15) toggleCase(x *res, adapter string, seq []int, ctx *runner.Ctx) {
 	}
 }
 
+// malformedWhileFailing: "while a failure condition is active every data operation returns the configured error" -
+// also a read whose request would be refused anyway (a reserved word or a syntax error in its ProjectionExpression,
+// placeholders nothing uses, a blank filter, no key condition): the failure wins in both clients, as it does for
+// well-formed requests. (v1 requests that the SDK's own input.Validate() refuses never reach the fake: not sent.)
+func (p *c15) malformedWhileFailing(x *res, adapter string) {
+	spec := ixSpec("tbl15m", true)
+	kc := "h = :h"
+	hv := val.Item{":h": val.Str("p")}
+	reqs := []struct {
+		name string
+		op   adapt.Op
+	}{
+		{"scan-projection-reserved-word", adapt.Op{Kind: adapt.OpScan, Table: spec.Name, Proj: "h, name"}},
+		{"scan-projection-syntax", adapt.Op{Kind: adapt.OpScan, Table: spec.Name, Proj: "h,, r"}},
+		{"scan-blank-projection", adapt.Op{Kind: adapt.OpScan, Table: spec.Name, Proj: " ", ProjSet: true}},
+		{"scan-blank-filter", adapt.Op{Kind: adapt.OpScan, Table: spec.Name, Filter: "", FilterSet: true}},
+		{"scan-unused-name", adapt.Op{Kind: adapt.OpScan, Table: spec.Name, Names: map[string]string{"#u": "v"}}},
+		{"scan-unused-value", adapt.Op{Kind: adapt.OpScan, Table: spec.Name, Values: val.Item{":u": val.Num("1")}}},
+		{"scan-undefined-name", adapt.Op{Kind: adapt.OpScan, Table: spec.Name, Filter: "#nope = :u", Values: val.Item{":u": val.Num("1")}}},
+		{"scan-malformed-filter", adapt.Op{Kind: adapt.OpScan, Table: spec.Name, Filter: "v = = :u", Values: val.Item{":u": val.Num("1")}}},
+		{"query-projection-reserved-word", adapt.Op{Kind: adapt.OpQuery, Table: spec.Name, KeyCnd: kc, Values: hv, Proj: "h, status"}},
+		{"query-unused-name", adapt.Op{Kind: adapt.OpQuery, Table: spec.Name, KeyCnd: kc, Values: hv, Names: map[string]string{"#u": "v"}}},
+		{"query-without-key-condition", adapt.Op{Kind: adapt.OpQuery, Table: spec.Name, NoKC: true}},
+		{"query-blank-filter", adapt.Op{Kind: adapt.OpQuery, Table: spec.Name, KeyCnd: kc, Values: hv, Filter: "  ", FilterSet: true}},
+		{"get-projection-reserved-word", adapt.Op{Kind: adapt.OpGet, Table: spec.Name, Key: val.Item{"h": val.Str("p"), "r": val.Str("1")}, Proj: "name"}},
+		{"put-unused-value", adapt.Op{Kind: adapt.OpPut, Table: spec.Name, Item: ixItem("p", "7", "x", "1", 1), Values: val.Item{":u": val.Num("1")}}},
+		{"update-unused-name", adapt.Op{Kind: adapt.OpUpdate, Table: spec.Name, Key: val.Item{"h": val.Str("p"), "r": val.Str("1")}, Update: "SET w = :w", Values: val.Item{":w": val.Num("1")}, Names: map[string]string{"#u": "v"}}},
+		{"delete-malformed-condition", adapt.Op{Kind: adapt.OpDelete, Table: spec.Name, Key: val.Item{"h": val.Str("p"), "r": val.Str("1")}, Cond: "v = = :u", Values: val.Item{":u": val.Num("1")}}},
+	}
+	fails := []struct {
+		name string
+		on   adapt.Op
+		want string
+	}{{"internal_server", adapt.Op{Kind: adapt.OpEmulate, Fail: "internal_server"}, adapt.ClsInternal}, {"deprecated", adapt.Op{Kind: adapt.OpEmulate, Fail: "deprecated"}, adapt.ClsForced}, {"forceon", adapt.Op{Kind: adapt.OpForceOn}, adapt.ClsForced}}
+	for _, rq := range reqs {
+		for _, fl := range fails {
+			cl, _, ds := freshClient(adapter, spec)
+			if ds != nil {
+				return
+			}
+			cl.Do(adapt.Op{Kind: adapt.OpPut, Table: spec.Name, Item: ixItem("p", "1", "x", "9", 1)})
+			cl.Do(fl.on)
+			o := cl.Do(rq.op)
+			x.r.Evals++
+			x.fp(true, "%s|malformed-while-failing|%s|%s", adapter, rq.name, fl.name)
+			x.r.Counters["malformed_requests_while_failing"]++
+			if o.Class == adapt.ClsParam {
+				continue // refused by the SDK's own client-side validation before the fake is reached (SDK v1)
+			}
+			if o.Class != fl.want {
+				x.viol("failure-class", rq.name+"/"+fl.name, fmt.Sprintf("[%s] %s while %s is active: class %s (%s), want the configured error (%s)", adapter, rq.name, fl.name, o.Class, o.Msg, fl.want), map[string]interface{}{"adapter": adapter, "request": rq.op, "failure": fl.name, "outcome": o})
+			}
+		}
+	}
+}
+
 func (p *c15) batchCompositions(x *res, adapter string, ctx *runner.Ctx) {
 	specA, specB := ixSpec("tba15", true), mon.SpecHashOnly("tbb15")
 	// "rich" compositions: every put carries one member of C10's boundary set (empty string / list / map / binary,
@@ -250,6 +306,7 @@ func (p *c15) RunCase(ctx *runner.Ctx) runner.CaseResult {
 		}
 	case ctx.Case < nseq*2+2:
 		p.batchCompositions(x, adapt.Adapters[ctx.Case-nseq*2], ctx)
+		p.malformedWhileFailing(x, adapt.Adapters[ctx.Case-nseq*2])
 	default:
 		idx := ctx.Case - nseq*2 - 2
 		r := mon.Rng(ctx.Seed, "C15", idx)
